@@ -276,6 +276,9 @@ func main() {
 
 	var ops []string
 	if f.Replay != "" {
+		if _, serr := os.Stat(f.Replay); serr != nil && !filepath.IsAbs(f.Replay) {
+			f.Replay = filepath.Join(os.Getenv("VERIF_DIR"), f.Replay) // ./check runs us in a scratch directory
+		}
 		var err error
 		ops, err = hx.ReadReplayOps(f.Replay)
 		if err != nil {
@@ -294,9 +297,9 @@ func main() {
 				rep.Count("corpus")
 			}
 		}
-		ndoc, nleaf, nplain := 1500, 2500, 800
+		ndoc, nleaf, nplain := 6000, 10000, 3000
 		if f.Thorough() {
-			ndoc, nleaf, nplain = 60000, 100000, 30000
+			ndoc, nleaf, nplain = 200000, 300000, 100000
 		}
 		for _, jc := range jsonxCorners {
 			g.add("tojson " + hx.Hex([]byte(jc.text)))
